@@ -38,6 +38,14 @@ SecComponentSignature "OWASP_CRS/{V}"
 SecAction "id:900991,ver:'OWASP_CRS/{V}',setvar:tx.crs_setup_version={D},setvar:tx.crs_setup_version={D},ver:'OWASP_CRS/{V}'"
 `
 
+// markers inside commented-out rules are markers too
+const c14Commented = `#SecAction \
+#    "id:900000,\
+#    ver:'OWASP_CRS/{V}',\
+#    setvar:tx.crs_setup_version={D}"
+    # indented comment: ver:'OWASP_CRS/{V}'
+`
+
 const c14Legacy = `# OWASP ModSecurity Core Rule Set ver.{V}
 # Copyright (c) 2021-{Y} Core Rule Set project. All rights reserved.
 SecAction \
@@ -59,6 +67,7 @@ func c14Tree(v, y string) core.Tree {
 		"rules/REQUEST-999-TWICE.conf": c14Fill(c14Markers+c14Markers+c14Legacy+c14Legacy, v, y),
 		"crs-setup.conf.example":       c14Fill(c14Legacy+c14Markers, v, y),
 		"rules/none.conf":              "# nothing to see\nSecRuleEngine On\n",
+		"rules/commented.conf":         c14Fill(c14Commented+c14Markers+c14Commented, v, y),
 		"rules/nonl.conf":              strings.TrimSuffix(c14Fill(c14Legacy, v, y), "\n"),
 		"plugins/deep/nested/p.conf":   c14Fill(c14Markers, v, y),
 	}
